@@ -686,7 +686,14 @@ def rule_same_constants(ctx):
             ctx.violation("%s|gap-floor|missing" % name, site(fn, 0), "no gap penalty is subtracted from the running score")
 
 
+def rule_cell_equations(ctx):
+    """The DP cell updates are part of the scheme (consecutive-run bonus, gap penalties): shared with C04/C02."""
+    from props.c04 import rule_cell_equations as r
+    r(ctx)
+
+
 def rules(ctx):
+    ctx.run_rule("C03.cell-equations", rule_cell_equations)
     ctx.run_rule("C03.constants", rule_constants)
     ctx.run_rule("C03.bonus-table", rule_bonus_table)
     ctx.run_rule("C03.prev-class", rule_prev_class)
